@@ -8,21 +8,10 @@ import extract_read
 
 def stage_translate_and_extract(ctx, probes=()):
     """translate + harness build + extraction, under the build lock. Returns (T, ext) (ext None if the harness
-    could not be built)."""
+    could not be built). Every check extracts (`checklib.translate_all`); this variant passes probes."""
     with C.Lock():
-        T, fails = C.translate_all(ctx)
-        ok, err = C.build_harness(ctx, bins=("extract",))
-        ext = None
-        if ok:
-            out = C.run_extract(ctx, list(probes))
-            ext = extract_read.parse(out)
-            lean_emit.emit_extracted(ext, "Rspirv.Generated.Extracted", C.GEN + "/Extracted.lean",
-                                     "extracted by executing grammar::reflect on every opcode")
-        else:
-            ctx.data["harness_error"] = err
-        emit_findings(ctx, ext)
-    ctx.data["ext"] = ext
-    return T, ext
+        T, fails = C.translate_all(ctx, probes)
+    return T, ctx.data.get("ext")
 
 
 def known(prop):
